@@ -494,7 +494,17 @@ def inline_body(helper, call, is_method, kind, target, caller_locals, base_line=
   body = copy.deepcopy([s for s in helper.body if not (isinstance(s, ast.Expr) and isinstance(s.value, ast.Constant) and isinstance(s.value.value, str))])
   # helper locals that collide with caller locals get a suffix
   _, hl = local_defs_fp(helper)
-  collide = dict((nm, nm + '__h') for nm, _ in hl if nm in caller_locals and nm not in subst)
+  # a helper local that is returned into the caller variable of the same name needs no suffix:
+  #   n = self._Helper()   with   def _Helper(self): ...; n = ...; return n
+  keep = None
+  if kind == 'assign' and len(target) == 1 and isinstance(target[0], ast.Name):
+    T = target[0].id
+    hrets = _returns(helper)
+    pnames = [x.arg for x in helper.args.posonlyargs + helper.args.args]
+    if (len(hrets) == 1 and helper.body and helper.body[-1] is hrets[0] and isinstance(hrets[0].value, ast.Name) and hrets[0].value.id == T
+        and T not in pnames and not any(isinstance(x, ast.Name) and x.id == T for a in list(call.args) + [k.value for k in call.keywords] for x in ast.walk(a))):
+      keep = T
+  collide = dict((nm, nm + '__h') for nm, _ in hl if nm in caller_locals and nm not in subst and nm != keep)
   if collide:
     r = _Rename(collide)
     body = [r.visit(s) for s in body]
@@ -511,6 +521,8 @@ def inline_body(helper, call, is_method, kind, target, caller_locals, base_line=
         return [ast.Assign(targets=copy.deepcopy(target), value=ast.Constant(value=None), **loc)]
       return []
     if kind == 'assign':
+      if keep is not None and isinstance(value, ast.Name) and value.id == keep:
+        return []
       return [ast.Assign(targets=copy.deepcopy(target), value=value, **loc)]
     if kind == 'return':
       return [ast.Return(value=value, **loc)]
